@@ -216,8 +216,8 @@ PROPS = {
         'exhaustive_note': 'set_rate_in_hz for 0..11; every permutation of every subset of <= 2 (thorough <= 3) GNSS systems',
     },
     'C04': {
-        'source_transfer': ['TransferServer'],
-        'source_tie': ['Server', 'UbxParser'],
+        'source_transfer': ['TransferServer', 'TransferFactory'],
+        'source_tie': ['Server', 'UbxParser', 'Factory'],
         'jobs': [{'component': 'srv', 'profile': 'mixed', 'quick': 4000, 'thorough': 8000, 'project': 'result'},
                  {'component': 'seq', 'profile': 'seq', 'quick': 1000, 'thorough': 2500, 'project': 'result'},
                  {'component': 'cid', 'profile': 'grid', 'quick': 1, 'thorough': 1}],
@@ -234,15 +234,15 @@ PROPS = {
         'assumptions': ['partial: real time is replaced by the virtual clock; transmit, flush and recover take no time; a receive takes 1..T ticks'],
     },
     'C06': {
-        'source_transfer': ['TransferServer'],
-        'source_tie': ['Server', 'UbxParser'],
+        'source_transfer': ['TransferServer', 'TransferFactory'],
+        'source_tie': ['Server', 'UbxParser', 'Factory'],
         'jobs': [{'component': 'seq', 'profile': 'c06', 'quick': 3000, 'thorough': 8000, 'project': 'result+sent'}],
         'trusted': ['scenarios are built so that the premise holds and the premise is re-checked with the reference scanner before a scenario is used'],
         'assumptions': ['partial: as C04; "in time" = the bytes are delivered by receive calls that start before the deadline'],
     },
     'C10': {
-        'source_transfer': ['TransferServer'],
-        'source_tie': ['Server', 'UbxParser'],
+        'source_transfer': ['TransferServer', 'TransferFactory'],
+        'source_tie': ['Server', 'UbxParser', 'Factory'],
         'jobs': [{'component': 'seq', 'profile': 'seq', 'quick': 2400, 'thorough': 6000, 'project': 'result+sent+calls'},
                  {'component': 'cid', 'profile': 'grid', 'quick': 1, 'thorough': 1}],
         'trusted': ['the buffered stub implements the contract of _flush_input(): what has arrived and was not read is dropped'],
